@@ -26,12 +26,16 @@ type VarSpec struct {
 //	pure: result = mix(name, args), typed by Ret; never fails by itself
 //	fail: always returns a sentinel error
 //	now:  returns the environment's logical clock (constant within one call)
+//	count: returns how many times it has been called during this call into the
+//	      library (1, 2, ...): not idempotent, so dropping or duplicating an
+//	      application changes values
 type OpSpec struct {
 	Name      string `json:"name"`
 	Kind      string `json:"kind"` // pure | fail | now
 	Ret       Ty     `json:"ret"`
 	Arity     int    `json:"arity"`
 	Stateless bool   `json:"stateless,omitempty"` // listed in Config.StatelessOperators
+	Mutates   bool   `json:"mutates,omitempty"`   // scribbles over its params slice before returning (an operator owns the slice it is handed)
 }
 
 const (
@@ -151,6 +155,12 @@ type Env struct {
 	// Sub, when set, serves operators of kind "sub": a re-entrant call into
 	// the library from inside a callback.
 	Sub func() interface{}
+	// KeyOf, when set, is the configuration's name -> key assignment. A fetcher
+	// is entitled to use either key it is handed, so the simulated one insists
+	// that both identify the same variable.
+	KeyOf       func(name string) int16
+	KeyMismatch string
+	counts      map[string]int64
 }
 
 func NewEnv(ops map[string]*OpSpec, p *Plan) *Env {
@@ -194,10 +204,19 @@ func (e *Env) maybeAbort(site int) {
 }
 
 // Get is the variable-fetch seam.
+func (e *Env) checkKey(what string, varKey int16, name string) {
+	if e.KeyOf != nil && e.KeyMismatch == "" {
+		if want := e.KeyOf(name); want != varKey {
+			e.KeyMismatch = fmt.Sprintf("%s(%d, %q): the configuration assigns key %d to %q", what, varKey, name, want, name)
+		}
+	}
+}
+
 func (e *Env) Get(varKey int16, name string) (interface{}, error) {
 	if e.Yield != nil {
 		e.Yield("get", name)
 	}
+	e.checkKey("Get", varKey, name)
 	site := e.N
 	e.N++
 	c := Call{Kind: "get", Name: name, VarKey: varKey, Phase: e.Phase}
@@ -233,6 +252,7 @@ func (e *Env) IsCached(varKey int16, name string) bool {
 	if e.Yield != nil {
 		e.Yield("cached", name)
 	}
+	e.checkKey("Cached", varKey, name)
 	ok := !e.unavail[name]
 	if !ok {
 		e.Fired["unavailable"]++
@@ -269,6 +289,12 @@ func (e *Env) CallOp(name string, args []interface{}) (interface{}, error) {
 	case e.failOps != nil && e.failOps[OpKey(name, args)]:
 		c.Err = &SimErr{Site: site, Kind: "op_error", What: name}
 		e.Fired["op_error"]++
+	case spec.Kind == "count":
+		if e.counts == nil {
+			e.counts = map[string]int64{}
+		}
+		e.counts[name]++
+		c.Res = e.counts[name]
 	case spec.Kind == "now":
 		c.Res = e.Plan.Clock
 	case spec.Kind == "sub":
@@ -373,7 +399,7 @@ func (h *OpHost) Operator(name string) eval.Operator {
 			switch spec.Kind {
 			case "fail":
 				return nil, &SimErr{Kind: "op_error", What: name}
-			case "now", "sub":
+			case "now", "sub", "count":
 				return int64(0), nil
 			}
 			return Mix(spec, args), nil
@@ -390,6 +416,11 @@ func (h *OpHost) Operator(name string) eval.Operator {
 			args[i] = p
 		}
 		v, err := env.CallOp(name, args)
+		if sp := h.Specs[name]; sp != nil && sp.Mutates {
+			for i := range params {
+				params[i] = "scribbled-by-" + name
+			}
+		}
 		if err != nil {
 			return nil, err
 		}
